@@ -5,7 +5,7 @@ class C08(FloorProp):
     id = 'C08'
     profile = 'c08'
     design_ref = 'DESIGN.md section 4 / C08'
-    budgets = {'quick': 12000, 'thorough': 300000}
+    budgets = {'quick': 10000, 'thorough': 300000}
 
     def gen(self, rng, index, tier):
         from .. import floorsim
